@@ -156,3 +156,10 @@ def _(value: frozenset):
 @customize_repr
 def _(value: type):
     return value.__qualname__
+
+
+@customize_repr
+def _(value: complex):
+    # repr(1+2j) is "(1+2j)"; the parentheses are not part of the value and
+    # every later update would add another pair around them
+    return real_repr(value).strip("()")
